@@ -392,6 +392,46 @@ def run_composites(ctx: Ctx) -> None:
         return True, ""
     _guard(ctx, "T67.sequential-nonrigid", "lin+ddf", fSf, "sequential linear/dense on grid points", thsn)
 
+    ctx.rule("T67.nonrigid-points", "calling a dense non-rigid transform on arbitrary points samples its displacement field at those points "
+                                    "under the grid's own align_corners convention (one torch.grid_sample call: field = tensor(), coordinates = "
+                                    "the points, flag = grid.align_corners()) and returns x + u(x); at the grid's own sample positions this "
+                                    "equals x + disp()")
+    for cls_nr, kw_nr in (("DisplacementFieldTransform", {}), ("StationaryVelocityFieldTransform", {"steps": 1})):
+        for ac_nr in (True, False):
+            def thnp(cls_nr=cls_nr, kw_nr=kw_nr, ac_nr=ac_nr):
+                from .t6_transforms import TEnv
+                env = TEnv(ctx, 2)
+                it = env.it
+                env.grid = it.new(env.Grid, size=(5, 5), align_corners=ac_nr)
+                t = env.make("deepali.spatial.nonrigid", cls_nr, kw_nr, "buffer")
+                it.method(t, "update")
+                u = it.method(t, "tensor").clone()
+                x = STensor.symbols("x", [1, 3, 2])
+                del symt.GRID_SAMPLE_CALLS[:]
+                y = it.call_value(t, [x], {})
+                calls = [c for c in symt.GRID_SAMPLE_CALLS if teq(c["input"], u)] if symt.GRID_SAMPLE_CALLS else []
+                if len(calls) != 1:
+                    return False, f"{cls_nr}(points): expected one sampling of the displacement field at the points, saw {len(calls)}"
+                c = calls[0]
+                if bool(c["align_corners"]) != ac_nr:
+                    return False, (f"{cls_nr}(points) on a grid with align_corners={ac_nr} samples its displacement field with "
+                                   f"align_corners={c['align_corners']}")
+                if not teq(c["grid"].reshape([-1, 2]), x.reshape([-1, 2])):
+                    return False, f"{cls_nr}(points): the field is not sampled at the given points"
+                smp = symt.grid_sample(u, c["grid"], mode=c["mode"], padding_mode=c["padding_mode"], align_corners=c["align_corners"])
+                want = x.add(smp.reshape([1, 2, -1]).permute([0, 2, 1]).reshape(list(x.shape)))
+                if not teq(y, want):
+                    return False, f"{cls_nr}(points) is not x + u(x)"
+                # at the grid's own samples: equals x + disp()
+                lat = identity_coords((5, 5), ac_nr).reshape([1, -1, 2])
+                yl = it.call_value(t, [lat], {})
+                d = it.method(t, "disp")
+                wantl = lat.add(d[0].permute([1, 2, 0]).reshape([1, -1, 2]))
+                if not teq(yl, wantl):
+                    return False, f"{cls_nr}: the point map at the grid's own samples differs from x + disp()"
+                return True, ""
+            _guard(ctx, "T67.nonrigid-points", f"{cls_nr}:ac={ac_nr}", prog.func("deepali.spatial.base", "SpatialTransform.forward"), f"class={cls_nr} align_corners={ac_nr}", thnp)
+
     def thm():
         from .t6_transforms import TEnv
         env = TEnv(ctx, 2)
